@@ -81,6 +81,7 @@ class Scenario:
     def apply(self, path, at=None):
         """-> (OSFaults, raised)"""
         from breezy import errors
+        from breezy.transform import ImmortalLimbo
         wt = bz.open_tree(path)
         raised = None
         self.immortal = None
@@ -95,7 +96,7 @@ class Scenario:
                     # revert's own finalize(), see below
                     raised = e
                     self.immortal = "pending-deletion"
-                except errors.ImmortalLimbo as e:
+                except ImmortalLimbo as e:
                     raised = e
                     self.immortal = "limbo"
             return f, raised
@@ -119,7 +120,7 @@ class Scenario:
                 # documented: the directory with the not yet discarded
                 # content is left for the user to examine
                 self.immortal = "pending-deletion"
-            except errors.ImmortalLimbo:
+            except ImmortalLimbo:
                 self.immortal = "limbo"
         return f, raised
 
